@@ -24,6 +24,10 @@ fn main() {
     if std::env::var("VSIM_PANIC_TRACE").is_err() {
         std::panic::set_hook(Box::new(|_| {}));
     }
+    // VSIM_TRACE=<env-filter> prints litep2p's tracing output (triage only)
+    if let Ok(f) = std::env::var("VSIM_TRACE") {
+        let _ = tracing_subscriber::fmt().with_env_filter(tracing_subscriber::EnvFilter::new(f)).without_time().with_ansi(false).with_writer(std::io::stderr).try_init();
+    }
     let args: Vec<String> = std::env::args().collect();
     if args.len() < 2 {
         usage();
